@@ -140,6 +140,15 @@ def add_corpora(cases, rng):
                     for _ in range(rng.randint(0, 5))]
             g['corpora'].append({'tokens': toks, 'distribute': rng.random() < 0.5,
                                  'smoothing': rng.choice([[0, 1], [1, 2], [1, 1], [1, 1]])})
+        # a WordNet::Similarity weights file: some synsets listed (some twice, the last
+        # wins), some marked ROOT
+        rows = []
+        for x in rng.sample(range(1, n + 1), rng.randint(0, n)):
+            rows.append([x, rng.randint(1, 50), rng.random() < 0.4])
+        if rows and rng.random() < 0.2:
+            rows.append([rows[0][0], rng.randint(51, 60), False])
+        # (weights files know n / v / a / r only; ids of satellite synsets carry '-s')
+        g['icfiles'] = [{'rows': rows}] if 's' not in g['pos'] else []
 
 
 def c15(tier: str) -> int:
